@@ -6,7 +6,7 @@ CLI = ("bkl",)
 HARNESS = True
 ASSUMPTIONS = ["theorems are about Model.Eval.validate/outputs_of; tie to validate.go/parser.go is this run's comparison of success/failure (and the required-field / invalid-directive class) and outputs"]
 RULE = ("layer chains (1-3 layers) with $required and directive-shaped strings/keys (known, unknown, wrong position, wrong argument type, upper-case and "
-        "non-ASCII look-alikes) injected at values, list entries and keys, also under $output:false and inside $encode subtrees; compared: "
+        "non-ASCII look-alikes) injected at values, list entries and keys, also under $output:false, inside $encode subtrees and inside YAML anchors reached through aliases and merge keys; compared: "
         "ok/err with error class, outputs; implementation-only oracle: a successful output of an input without '$$' contains no '$required' and no "
         "'$'+lowercase string; non-trivial = an injected marker is present in some layer; distinct by hash")
 
@@ -51,6 +51,99 @@ def dist_fn(dist, c, a, b):
         dist[k] = dist.get(k, 0) + 1
 
 
+MARKERS = ["$required", "$delete", "$match", "$replace", "$bogus", "$output", "$merge:nope", "$valeu", "$encode", "$repeat"]
+
+
+def anchor_doc(rng):
+    """(YAML text, the tree it denotes): a marker sits inside an ANCHORED node and reaches other places through an alias or
+    a merge key - possibly overridden by a local key, possibly under $output: false"""
+    marker = rng.pick(MARKERS)
+    shape = rng.below(4)
+    if shape == 0:
+        inner = {"k": marker, "v": 1}
+    elif shape == 1:
+        inner = {"k": [1, marker], "v": 1}
+    elif shape == 2:
+        inner = {"k": {"deep": marker}, "v": 1}
+    else:
+        inner = {"v": 1, marker if marker not in ("$output", "$encode", "$repeat", "$match", "$replace", "$required") else "$mtach": 2}
+    hidden = rng.chance(1, 3)
+    tpl = dict(inner)
+    if hidden:
+        tpl["$output"] = False
+
+    def flow(v):
+        if isinstance(v, dict):
+            return "{" + ", ".join("%s: %s" % (gen._json_tok(k), flow(x)) for k, x in v.items()) + "}"
+        if isinstance(v, list):
+            return "[" + ", ".join(flow(x) for x in v) + "]"
+        return gen._json_tok(v)
+    use = rng.below(5)
+    import copy
+    tree = {"tpl": copy.deepcopy(tpl), "other": 1}
+    text = "other: 1\ntpl: &t %s\n" % flow(tpl)
+    if use == 0:
+        text += "use: *t\n"
+        tree["use"] = copy.deepcopy(tpl)
+    elif use == 1:
+        text += "use: {<<: *t, extra: 2}\n"
+        tree["use"] = dict(copy.deepcopy(tpl), extra=2)
+    elif use == 2:
+        # the local key overrides the marker that came through the merge key; $output is re-stated so the use is visible
+        text += "use: {<<: *t, k: 5, \"$output\": true}\n"
+        u = dict(copy.deepcopy(tpl))
+        u["k"] = 5
+        u["$output"] = True
+        tree["use"] = u
+    elif use == 3:
+        text += "use: [*t, 7]\n"
+        tree["use"] = [copy.deepcopy(tpl), 7]
+    else:
+        text += "use: {inner: *t}\n"
+        tree["use"] = {"inner": copy.deepcopy(tpl)}
+    return text, tree
+
+
+def anchor_pass(ctx, rng, n, dist):
+    """markers inside YAML anchors: the text (anchors, aliases, merge keys) through the real binary vs the denoted tree through
+    the model; a successful output must contain no marker"""
+    import os
+    d = os.path.join(ctx.work, "anch")
+    os.makedirs(d, exist_ok=True)
+    docs = [anchor_doc(rng.fork("a%d" % i)) for i in range(n)]
+    for i, (text, tree) in enumerate(docs):
+        open(os.path.join(d, "an%d.yaml" % i), "w").write(text)
+    res = core.pmap(lambda i: core.cli(os.path.join(ctx.bindir, "bkl"), ["-f", "json", "an%d.yaml" % i], d), range(n))
+    cases = [["history", None, hist.stream_history([tree])] for _, tree in docs]
+    hist.collect_tables(ctx, cases, lambda c: {}, hist.docs_of_history)
+    mo = ctx.model(cases)
+    ok = 0
+    for (text, tree), (rc, out, err), m in zip(docs, res, mo):
+        if hist.has_oracle_miss(m):
+            continue
+        why = None
+        mout = m[-1] if isinstance(m, list) and m else None
+        mok = bool(mout and mout[0] == "out" and mout[1][0] == "ok")
+        if rc == 0:
+            ok += 1
+            got = core.parse_json_docs(out.decode("utf-8", "replace"))
+            bad = list(bad_strings(got))
+            if bad:
+                why = "a marker inside a YAML anchor reached the output: %r" % bad[:3]
+            elif not mok:
+                why = "bkl accepts the document, the model refuses the tree it denotes (%s)" % (mout,)
+            elif not core.veq(got, mout[1][1]):
+                why = "output %s differs from the model's %s" % (hist.short(got), hist.short(mout[1][1]))
+        elif mok:
+            why = "bkl refuses (%s) a document the model evaluates" % err.strip()[-150:]
+        if why and len(ctx.violations) < 5:
+            ctx.violations.append({"name": "anchor-" + core.vhash(text), "property": "C07", "kind": "failing-input", "why": why, "yaml": text,
+                                   "class": "c07-marker-through-anchor"})
+    dist["yaml_anchor_documents"] = n
+    dist["yaml_anchor_accepted"] = ok
+    return n
+
+
 def run(ctx):
     n = ctx.n(2000, 40000)
     stats = histprop.run_history_property(ctx, "C07", gen_case, n, RULE, nontrivial, judge=judge, dist_fn=dist_fn)
@@ -60,6 +153,7 @@ def run(ctx):
     done = filepass.run_layers_through_files(ctx, [filepass.layers_of_history(c) for c in cases], rng, "C07", "c07-disagreement")
     stats["distribution"]["through_layer_files"] = done
     stats["evaluations"] += done
+    stats["evaluations"] += anchor_pass(ctx, core.Rng(ctx.seed + 2), ctx.n(120, 3000), stats["distribution"])
     stats["disagreements_checked"] = len(ctx.violations)
     return stats
 
